@@ -21,7 +21,7 @@ def prop(pid, **kw):
 
 
 prop("C18",
-     trusted_base=["hand-written model Model/FileSet.lean of IsInSetSmart/dirname/FileSets/Handler/SyscallCounter, tied to the code by the exhaustive bounded + random differential (real functions called in-process)",
+     trusted_base=["hand-written model Model/FileSet.lean of IsInSetSmart/dirname/FileSets/Handler/SyscallCounter, tied to the code by kernel evaluation of the regenerated IsInSetSmart/dirname/Is*File (Gen.C18, theorems C18_tie_inset / C18_tie_classes) and by the exhaustive bounded + random differential (real functions called in-process)",
                    "filepath.EvalSymlinks (realPath) is a parameter of the model; its values are taken from the library's own realPath"],
      assumptions=["query paths are absolute or empty (what the ptrace handler produces); the excluded region is exhibited by C18_relative_witness",
                   "Go int counters do not wrap (2^63 calls)"],
@@ -133,9 +133,9 @@ prop("C11",
 prop("C16",
      trusted_base=["protocol LTS Model/Rpc.lean extended with 'host killed in any reachable state' (crashSteps): the container consumes what is in flight, a receive on the closed empty socket is EOF",
                    "extracted facts (Gen.C16): every select statement of the container package with its communication clauses, the SysProcAttr of the init, the ptrace options"],
-     assumptions=["kernel laws: PDEATHSIG is delivered when the creating thread's process dies; EOF is delivered to a blocked or later recvmsg; exit of a pid-namespace init kills the namespace; tracer exit kills PTRACE_O_EXITKILL tracees"],
+     assumptions=["kernel laws: PDEATHSIG is delivered when the creating thread's process dies; EOF is delivered to a blocked or later recvmsg; exit of a pid-namespace init kills the namespace; tracer exit kills PTRACE_O_EXITKILL tracees; PR_SET_PDEATHSIG set by the traced child covers the time before its first stop"],
      not_covered="blocking channel operations of the container outside select statements (waitPid/waitAll hand-offs to the reaper) are bounded by the preceding kill(-1); covered by the crash-point runs",
-     level_text="Kernel-evaluated theorem: from every reachable state of every operation, once the host is gone every continuation of the container ends in exit (by EOF alone); extracted-code theorems: every blocking select of the container has the done alternative, Pdeathsig=SIGKILL, PTRACE_O_EXITKILL; a real controller process is SIGKILLed at each announced protocol point and at random instants and the pid namespace / process group must be empty within the bound",
+     level_text="Kernel-evaluated theorem: from every reachable state of every operation, once the host is gone every continuation of the container ends in exit (by EOF alone); extracted-code theorems: every blocking select of the container has the done alternative, Pdeathsig=SIGKILL, PTRACE_O_EXITKILL; for every option set with ptrace the child asks for PR_SET_PDEATHSIG (and checks its parent) before PTRACE_TRACEME (theorem on the fork skeleton, which C04 ties to the regenerated child); a real controller process is SIGKILLed at each announced protocol point, shortly after the synchronisation of a traced launch, and at random instants and the pid namespace / process group must be empty within the bound",
      level_note="PARTIAL: kernel delivery laws assumed. Trusted: Lean kernel, hand protocol model (tied by C10's trace inclusion), extractor",
      technique="Lean 4 exhaustive crash-point exploration (decide +kernel) + extracted-code facts + crash-point enumeration against real processes")
 
@@ -164,7 +164,7 @@ prop("C14",
 
 prop("C19",
      trusted_base=["hand model Model/Socket.lean: SOCK_SEQPACKET queue, kernel recvmsg truncation (data and control; descriptors that fit are installed even when the message is truncated), SCM_MAX_FD, and the library's SendMsg/RecvMsg with the receiver's descriptor ledger",
-                   "tie: per-operation differential on real socketpairs (bytes, (dev,ino) and FD_CLOEXEC of every received descriptor, Ucred, process descriptor count after every operation)"],
+                   "tie: the regenerated RecvMsg/parseMsg (Gen.C19) evaluated by the kernel on the kernel's possible answers (C19_tie_recv: credentials before rights, truncation flags, 0..3 descriptors); per-operation differential on real socketpairs (bytes, (dev,ino) and FD_CLOEXEC of every received descriptor, Ucred, process descriptor count after every operation)"],
      assumptions=["kernel SEQPACKET/SCM semantics as modelled; Go's ReadMsgUnix sets MSG_CMSG_CLOEXEC",
                   "open known findings: (1) a zero-length payload is not delivered transparently (net.UnixConn pads it with a dummy byte when control data is attached, and it reads as EOF otherwise); (2) gob layer: an oversize (unsent) message that was the first use of its type leaves the encoder ahead of the decoder and every later message undecodable — unreachable from the container package, whose first messages (ping/conf and their replies) are small"],
      not_covered="the gob framing is covered by the differential only (the model has no gob)",
@@ -185,7 +185,7 @@ prop("C13",
 
 prop("C20",
      trusted_base=["hand model Model/Cgroup.lean: ownership over histories (`ostep`: one atomic mkdir per directory, Destroy's loop, external mkdir/rmdir), the two-creator stat/mkdir interleaving system, cpu.stat parsing",
-                   "Go-lite runs of the regenerated V2.CPUUsage, EnsureDirExists, V1.Destroy, V1.AddProc (Gen.C20)",
+                   "Go-lite runs of the regenerated V2.CPUUsage, EnsureDirExists, V1.Destroy, V1.AddProc, (*V2).New, (*V2).Nest and newV2 (Gen.C20; newV2 without its deferred clean-up, which runs on error paths only)",
                    "tie: histories replayed on the REAL cgroup v1 hierarchies and on a real cgroup2 mount in a private mount namespace, compared with `ostep` (Existing(), directories removed) and with an independent bookkeeping oracle; 16-way concurrent creators; parsers on crafted files vs the regenerated code"],
      assumptions=["mkdir(2)/rmdir(2) are atomic; nobody outside removes a group a live handle created (external removals only of groups no handle made)",
                   "a handle is not used after Destroy (a second Destroy would rmdir the path again)",
@@ -230,11 +230,11 @@ prop("C05",
                    "Model/MountGen.lean: the regenerated Builder methods, pathPrefix, isBindMountFileOrNotExists, Mount.Mount, ensureMountTargetExists, initFileSystem, maskPath (Gen.C05) and forkAndExecInChild (Gen.ForkChild) run by Go-lite; their call traces read as operation lists",
                    "tie: both implementations on random tables with the probe inside: /proc/<pid>/mountinfo from the host at the sync point, write attempts under every mount, listing of /, reachability of old_root and unbound host paths, masks"],
      assumptions=["kernel mount semantics as modelled (bind ignores MS_RDONLY until remounted; per-mount read-only; detach of the old root makes the host tree unreachable)",
-                  "bind sources without separately mounted writable submounts (open known finding ro-rbind-rw-submount)",
+                  "bind sources without separately mounted writable submounts at the time the sandbox is built (open known finding ro-rbind-rw-submount); mounts the host makes later are kept out by the private namespace (propagation case of the differential, on a shared tmpfs the harness makes)",
                   "the container's MaskPaths need /dev/null inside the container (open known finding mask-needs-dev-null)",
                   "what a bound host directory contains is the caller's choice: 'nothing of the host outside the declared bind sources'"],
      not_covered="device nodes and suid semantics of the bound trees (flags are checked, kernel enforcement is not); overlay/shared-subtree propagation other than the initial MS_PRIVATE",
-     level_text="Theorem for EVERY mount table (C05_namespace): if the sequence succeeds the namespace is the read-only root tmpfs followed by exactly the configured entries with their declared file system and read-only bit (the remount lands on the mount just made), followed by the masks; the host tree is detached; every directory created in the root is a prefix of a configured target or symlink path; writable(path) = the landing mount is not read-only. Kernel-evaluated: the operation sequences of the regenerated raw-child and container code equal the skeleton on tables with ro/rw directory and file binds, nested targets, tmpfs, proc ro/rw, symlinks, file and directory masks; the builder's flag words. Differential on both real implementations",
+     level_text="Theorem for EVERY mount table (C05_namespace): if the sequence succeeds the namespace is the read-only root tmpfs followed by exactly the configured entries with their declared file system and read-only bit (the remount lands on the mount just made), followed by the masks; the host tree is detached and the namespace was made recursively private first (later mount events of the host do not enter); every directory created in the root is a prefix of a configured target or symlink path; writable(path) = the landing mount is not read-only. Kernel-evaluated: the operation sequences of the regenerated raw-child and container code equal the skeleton on tables with ro/rw directory and file binds, nested targets, tmpfs, proc ro/rw, symlinks, file and directory masks; the builder's flag words. Differential on both real implementations",
      level_note="Trusted: Lean kernel; kernel mount semantics are modelled (assumed) and sampled on the real kernel by the differential; skeleton tied to regenerated code by kernel evaluation on a finite set of tables plus the per-run driver comparison. Two open known findings",
      technique="Lean 4 proof by induction over the mount table + decide +kernel on regenerated Go-lite code + differential on real mount namespaces",
      timeout={"quick": 900, "thorough": 3600})
